@@ -1,1 +1,538 @@
-/- C07: property theorems go here (only property theorems, non-vacuity examples, #print axioms). -/
+import StorageModel.Tx.Lemmas
+import StorageModel.Generated.CrudReturns
+/-
+  C07 — Transactions are all-or-nothing and every failure reaches the caller.
+
+  "If anything fails inside a Db.Update or Db.Batch transaction - the caller's function returns an
+  error, a store operation is rejected (validation, index, foreign key, constraint veto, storage
+  error) or a pre-commit action fails - the caller receives a non-nil error, the database is left
+  exactly as it was before the transaction, and no commit action or listener runs. Conversely no
+  create, update or delete reports success when one of its steps was rejected: a veto or storage
+  error raised at any stage is always returned to the caller."
+
+  Model: StorageModel/Tx/{Types,Store,Db}.lean follow boltz/store_crud.go, store.go, db.go,
+  tx_context.go stage by stage; at every `if err != nil` site the model does what the table
+  `Generated.crudReturns` — regenerated from the source by /verif/extract/returns.go on every run —
+  says the Go code does there.  Spec: StorageModel/Tx/Spec.lean.
+
+  The theorems are about `Generated.crudReturns`, i.e. about the return paths the code has NOW.
+  bbolt's rollback itself is modelled, not verified (`rollback` in Tx/Db.lean restores the database
+  and drops the OnCommit queue; the harness compares the real bucket tree before and after).
+-/
+namespace StorageModel.Properties.C07
+open StorageModel.Tx StorageModel.Tx.Spec
+
+/-- Obligation on regenerated data: the return paths of the four operations and their helpers are the
+    ones under which every raised error is handed on. -/
+theorem table_is_expected : Generated.crudReturns = expectedReturns := by decide
+
+def expectedAdapter (name : String) : String :=
+  name ++ " = created: go state.FinalState | call state.FinalState; updated: go state.FinalState | call state.FinalState; deleted: go state.InitialState | call state.InitialState"
+
+set_option maxRecDepth 100000 in
+/-- Obligation on regenerated data: post-commit work starts only through tx.OnCommit, and the three
+    listener adapters have the modelled shape. -/
+theorem delivery_is_expected :
+    Generated.deliveryFlags.all (·.2) = true ∧ Generated.deliveryFlags.length = 15 ∧
+    Generated.adapterShapes = ["entityListenerAdapter", "entityFunctionListenerAdapter", "untypedEventListenerWrapper"].map expectedAdapter := by
+  decide
+
+/-- environments whose return table is the one regenerated from the code (registrations and the
+    number of tx-complete listeners are arbitrary) -/
+def FromCode (env : Env) : Prop := env.t = Generated.crudReturns
+
+theorem FromCode.expected {env : Env} (h : FromCode env) : env.t = expectedReturns := h.trans table_is_expected
+
+example : FromCode { regsP := [.constraint true [(.deleted, "a")]], regsC := [], txListeners := 1, t := Generated.crudReturns } := rfl
+
+/-! ## every failure of a store operation reaches the caller -/
+
+/-- Errors are only ever added to the record of raised errors. -/
+theorem raised_only_grows (env : Env) (h : FromCode env) (fault : Fault) (o : Op) (st : TxSt) :
+    ∃ more, (runOp env fault o st).1.raised = st.raised ++ more :=
+  (runOp_ghost env h.expected fault o st).2.1
+
+/-- **C07, error propagation (all operations, all states, all registrations, every injected storage
+    fault, every stage).**  If anything was raised while the operation ran — by a validation, by the
+    storage layer (unusable key, injected FillEntity / PersistEntity error), by an index (duplicate,
+    null, missing fk target, referenced entity), by a vetoing constraint in the parent or the child
+    flow, by the query parser — the operation does not report success. -/
+theorem op_error_surfaces (env : Env) (h : FromCode env) (fault : Fault) (o : Op) (st : TxSt)
+    (hr : (runOp env fault o st).1.raised ≠ st.raised) : (runOp env fault o st).2 ≠ .ok :=
+  fun hok => hr ((runOp_ghost env h.expected fault o st).2.2 hok)
+
+/-- the failure kinds of C07, stated on the database the operation meets (no stages, no tables) -/
+inductive OpFails (env : Env) (db : Db) : Op → Prop
+  | createBlankId (σ f rank) : OpFails env db (.create σ "" f rank)
+  | createExists (σ id f rank) : present σ db id = true → OpFails env db (.create σ id f rank)
+  | createUnusableKey (σ id f rank) : keyRejected f = true → OpFails env db (.create σ id f rank)
+  | createName (σ id f rank) : nameRejected db id none f = true → OpFails env db (.create σ id f rank)
+  | createEmptyRole (σ id f rank) : rolesRejected none f = true → OpFails env db (.create σ id f rank)
+  | createMissingFk (σ id f rank) :
+      refRejected (db.put id (writtenEnt σ db id f rank)) none f = true → OpFails env db (.create σ id f rank)
+  | createVetoParentFlow (id f rank) : vetoed env .P .created id = true → OpFails env db (.create .C id f rank)
+  | createVetoOwnFlow (σ id f rank) : vetoed env σ .created id = true → OpFails env db (.create σ id f rank)
+  | updateBlankId (σ f rank) : OpFails env db (.update σ "" f rank)
+  | updateNotFound (σ id f rank) : view (updateStore σ db id) db id = none → OpFails env db (.update σ id f rank)
+  | updateUnusableKey (σ id f rank) : keyRejected f = true → OpFails env db (.update σ id f rank)
+  | updateName (σ id f rank) : nameRejected db id ((db.get id).map (·.f)) f = true → OpFails env db (.update σ id f rank)
+  | updateEmptyRole (σ id f rank) : rolesRejected ((db.get id).map (·.f)) f = true → OpFails env db (.update σ id f rank)
+  | updateMissingFk (σ id f rank) :
+      refRejected (db.put id (writtenEnt σ db id f rank)) ((db.get id).map (·.f)) f = true →
+      OpFails env db (.update σ id f rank)
+  | updateVetoParentFlow (σ id f rank) : vetoed env .P .updated id = true → OpFails env db (.update σ id f rank)
+  | updateVetoChildFlow (σ id f rank) : updateStore σ db id = .C → vetoed env .C .updated id = true →
+      OpFails env db (.update σ id f rank)
+  | deleteNotFound (σ id) : db.get id = none → OpFails env db (.delete σ id)
+  | deleteReferenced (σ id) : db.any (fun p => !(p.1 == id) && refBytes p.2.f.ref == id) = true →
+      OpFails env db (.delete σ id)
+  | deleteVetoParentFlow (σ id) : vetoed env .P .deleted id = true → OpFails env db (.delete σ id)
+  | deleteVetoChildFlow (σ id) : hasChild db id = true → vetoed env .C .deleted id = true →
+      OpFails env db (.delete σ id)
+  | badQuery (σ) : OpFails env db (.deleteWhere σ .bad)
+
+theorem passVetoes_vetoed (env : Env) (flows : List Flow) (fl : Flow) (hm : fl ∈ flows)
+    (hv : vetoed env fl.store fl.kind fl.id = true) : (passVetoes env flows).2 = false := by
+  induction flows with
+  | nil => cases hm
+  | cons a rest ih =>
+    unfold passVetoes
+    by_cases ha : vetoed env a.store a.kind a.id = true
+    · simp [ha]
+    · simp only [ha, Bool.false_eq_true, if_false]
+      rcases List.mem_cons.mp hm with rfl | hr
+      · exact absurd hv ha
+      · exact ih hr
+
+theorem specDelete_accepted' (env : Env) (fault : Fault) (id : String) (db : Db)
+    (h : (specDelete env fault id db).accepted = true) :
+    (∃ e, db.get id = some e) ∧
+    db.any (fun p => !(p.1 == id) && refBytes p.2.f.ref == id) = false ∧
+    (passVetoes env (delFlows db id)).2 = true := by
+  rw [specDelete_eq] at h
+  cases hg : db.get id with
+  | none => simp [hg, rejectClean] at h
+  | some e =>
+    simp only [hg] at h
+    by_cases h1 : faultHits fault (if hasChild db id = true then 3 else 2) (if hasChild db id = true then 1 else 0) 0 0 = true
+    · simp [h1, rejectDirty] at h
+    · by_cases h2 : db.any (fun p => !(p.1 == id) && refBytes p.2.f.ref == id) = true
+      · simp [h1, h2, rejectDirty] at h
+      · simp only [h1, h2, finish] at h
+        exact ⟨⟨e, rfl⟩, by simpa using h2, h⟩
+
+/-- each declarative failure kind makes the spec reject the operation -/
+theorem opFails_rejected (env : Env) (fault : Fault) (db : Db) (o : Op) (hf : OpFails env db o) :
+    (specOp env fault o db).accepted = false := by
+  cases hf with
+  | createBlankId σ f rank => simp [specOp, specCreate, rejectClean]
+  | createExists σ id f rank hp => simp [specOp, specCreate, hp, rejectClean]
+  | createUnusableKey σ id f rank hk =>
+    simp only [specOp, specCreate_eq, writeRejected, hk, Bool.true_or]
+    split <;> simp [rejectClean, rejectDirty]
+  | createName σ id f rank hk =>
+    simp only [specOp, specCreate_eq, writeRejected, hk, Bool.true_or, Bool.or_true]
+    split <;> simp [rejectClean, rejectDirty]
+  | createEmptyRole σ id f rank hk =>
+    simp only [specOp, specCreate_eq, writeRejected, hk, Bool.true_or, Bool.or_true]
+    split <;> simp [rejectClean, rejectDirty]
+  | createMissingFk σ id f rank hk =>
+    simp only [specOp, specCreate_eq, writeRejected, hk, Bool.or_true]
+    split <;> simp [rejectClean, rejectDirty]
+  | createVetoParentFlow id f rank hv =>
+    simp only [specOp, specCreate_eq]
+    split
+    · rfl
+    · split
+      · rfl
+      · simp only [finish]
+        exact passVetoes_vetoed env _ _ (by simp [writeFlows]; exact Or.inl rfl) hv
+  | createVetoOwnFlow σ id f rank hv =>
+    simp only [specOp, specCreate_eq]
+    split
+    · rfl
+    · split
+      · rfl
+      · simp only [finish]
+        cases σ with
+        | P => exact passVetoes_vetoed env _ _ (by simp [writeFlows]; rfl) hv
+        | C => exact passVetoes_vetoed env _ _ (by simp [writeFlows]; exact Or.inr rfl) hv
+  | updateBlankId σ f rank => simp [specOp, specUpdate_eq, rejectClean]
+  | updateNotFound σ id f rank hn =>
+    simp only [specOp, specUpdate_eq, hn]
+    split <;> rfl
+  | updateUnusableKey σ id f rank hk =>
+    simp only [specOp, specUpdate_eq, writeRejected, hk, Bool.true_or]
+    split
+    · rfl
+    · split <;> rfl
+  | updateName σ id f rank hk =>
+    simp only [specOp, specUpdate_eq, writeRejected, hk, Bool.true_or, Bool.or_true]
+    split
+    · rfl
+    · split <;> rfl
+  | updateEmptyRole σ id f rank hk =>
+    simp only [specOp, specUpdate_eq, writeRejected, hk, Bool.true_or, Bool.or_true]
+    split
+    · rfl
+    · split <;> rfl
+  | updateMissingFk σ id f rank hk =>
+    simp only [specOp, specUpdate_eq, writeRejected, hk, Bool.or_true]
+    split
+    · rfl
+    · split <;> rfl
+  | updateVetoParentFlow σ id f rank hv =>
+    simp only [specOp, specUpdate_eq]
+    split
+    · rfl
+    · split
+      · rfl
+      · split
+        · rfl
+        · simp only [finish]
+          cases updateStore σ db id with
+          | P => exact passVetoes_vetoed env _ _ (by simp [writeFlows]; rfl) hv
+          | C => exact passVetoes_vetoed env _ _ (by simp [writeFlows]; exact Or.inl rfl) hv
+  | updateVetoChildFlow σ id f rank hs hv =>
+    simp only [specOp, specUpdate_eq, hs]
+    split
+    · rfl
+    · split
+      · rfl
+      · split
+        · rfl
+        · simp only [finish]
+          exact passVetoes_vetoed env _ _ (by simp [writeFlows]; exact Or.inr rfl) hv
+  | deleteNotFound σ id hn =>
+    cases hacc : (specOp env fault (.delete σ id) db).accepted with
+    | false => rfl
+    | true =>
+      obtain ⟨⟨e, hg⟩, _⟩ := specDelete_accepted' env fault id db hacc
+      rw [hn] at hg; cases hg
+  | deleteReferenced σ id hr =>
+    cases hacc : (specOp env fault (.delete σ id) db).accepted with
+    | false => rfl
+    | true =>
+      obtain ⟨_, hnr, _⟩ := specDelete_accepted' env fault id db hacc
+      rw [hr] at hnr; cases hnr
+  | deleteVetoParentFlow σ id hv =>
+    cases hacc : (specOp env fault (.delete σ id) db).accepted with
+    | false => rfl
+    | true =>
+      obtain ⟨⟨e, hg⟩, _, hpv⟩ := specDelete_accepted' env fault id db hacc
+      have := passVetoes_vetoed env (delFlows db id)
+        { store := .P, kind := .deleted, id := id, initial := some (.parent id e.f), final := none,
+          parentEvent := e.child.isSome } (by
+            unfold delFlows view
+            simp only [hg]
+            cases hc : e.child <;> simp [deleteFlow]) hv
+      rw [this] at hpv; cases hpv
+  | deleteVetoChildFlow σ id hc hv =>
+    cases hacc : (specOp env fault (.delete σ id) db).accepted with
+    | false => rfl
+    | true =>
+      obtain ⟨⟨e, hg⟩, _, hpv⟩ := specDelete_accepted' env fault id db hacc
+      unfold hasChild at hc
+      simp only [hg, Option.bind_some] at hc
+      obtain ⟨r, hr⟩ := Option.isSome_iff_exists.mp hc
+      have := passVetoes_vetoed env (delFlows db id) (deleteFlow .C id (.child id e.f r)) (by
+            unfold delFlows view
+            simp [hg, hr]) hv
+      rw [this] at hpv; cases hpv
+  | badQuery σ => rfl
+
+/-- **C07, error propagation by failure kind** (with or without an injected storage fault): blank or existing id,
+    missing entity, unusable key, duplicate / null name, empty role, missing fk target, referenced
+    entity, veto on create / update / delete in the parent or in the child flow, unparsable query —
+    the operation's result is an error, for every operation, state and set of registrations. -/
+theorem op_failure_kind_surfaces (env : Env) (h : FromCode env) (fault : Fault) (o : Op) (st : TxSt)
+    (hf : OpFails env st.db o) : (runOp env fault o st).2 ≠ .ok := by
+  intro hok
+  have := (runOp_refines env h.expected fault o st).2.1.mp hok
+  rw [opFails_rejected env fault st.db o hf] at this
+  cases this
+
+-- non-vacuity: a vetoing constraint on the child store and a delete through the parent store
+example : OpFails { regsP := [], regsC := [.constraint false [(.deleted, "c1")]], txListeners := 0, t := Generated.crudReturns }
+    [("c1", { f := ⟨"n", [], none⟩, child := some "k" })] (.delete .P "c1") :=
+  .deleteVetoChildFlow .P "c1" (by decide) (by decide)
+
+/-- **C07, no false success.**  An operation that reports success was accepted by the spec (none of
+    its steps was rejected), has had its whole effect and raised nothing. -/
+theorem no_false_success (env : Env) (h : FromCode env) (fault : Fault) (o : Op) (st : TxSt)
+    (hok : (runOp env fault o st).2 = .ok) :
+    (specOp env fault o st.db).accepted = true ∧
+    (runOp env fault o st).1.db = (specOp env fault o st.db).db ∧
+    (runOp env fault o st).1.raised = st.raised ∧
+    ¬ OpFails env st.db o := by
+  obtain ⟨_, hiff, hrest⟩ := runOp_refines env h.expected fault o st
+  obtain ⟨h1, _, h3, _⟩ := hrest hok
+  refine ⟨hiff.mp hok, h1, h3, ?_⟩
+  intro hf
+  exact op_failure_kind_surfaces env h fault o st hf hok
+
+/-- the ghost form on its own: success means nothing was raised -/
+theorem no_false_success_any_fault (env : Env) (h : FromCode env) (fault : Fault) (o : Op) (st : TxSt)
+    (hok : (runOp env fault o st).2 = .ok) : (runOp env fault o st).1.raised = st.raised :=
+  (runOp_ghost env h.expected fault o st).2.2 hok
+
+/-! ## transactions -/
+
+/-- **C07, atomicity** (every table, every body, Update and Batch, fresh or reused context): a
+    transaction that does not succeed leaves the database as it was and runs nothing — no listener,
+    no constraint post-commit, no commit action, no tx-complete listener.  (bbolt's rollback is what
+    `rollback` models; that nothing is delivered except through the OnCommit queue is
+    `delivery_is_expected`.) -/
+theorem tx_atomic (env : Env) (db : Db) (prevCtx : Ctx) (tx : TxSpec)
+    (hne : (runTx env db prevCtx tx).res ≠ .ok) :
+    (runTx env db prevCtx tx).db = db ∧ (runTx env db prevCtx tx).fired = [] := by
+  unfold runTx at hne ⊢
+  cases hm : tx.mode with
+  | update =>
+    simp only [hm, dbUpdate] at hne ⊢
+    cases hr : (attempt env true db (if tx.reuseCtx = true then prevCtx else Ctx.empty) tx.body).res with
+    | ok => simp [hr, commit] at hne
+    | err e => simp [rollback]
+  | batch =>
+    simp only [hm, dbBatch] at hne ⊢
+    cases hr : (attempt env false db (if tx.reuseCtx = true then prevCtx else Ctx.empty) tx.body).res with
+    | ok => simp [hr, commit] at hne
+    | err e =>
+      simp only [hr] at hne ⊢
+      cases hr2 : (attempt env false db
+          (attempt env false db (if tx.reuseCtx = true then prevCtx else Ctx.empty) tx.body).st.ctx tx.body).res with
+      | ok => simp [hr2, commit] at hne
+      | err e2 => simp [rollback]
+
+/-- **C07, every failure inside a transaction reaches the caller** (bodies that hand operation
+    errors on, Update and Batch): whenever the spec says the transaction must not succeed — a step of
+    the body is rejected, the caller returns an error, a pre-commit action of the context fails — the
+    model of Db.Update / Db.Batch returns an error. -/
+theorem tx_error_surfaces (env : Env) (h : FromCode env) (db : Db) (prevCtx : Ctx) (tx : TxSpec)
+    (hw : tx.wellBehaved) (hs : (specTx env db prevCtx tx).ok = false) :
+    (runTx env db prevCtx tx).res ≠ .ok := by
+  intro hok
+  have := (runTx_agree env h.expected db prevCtx tx hw).res.mp hok
+  rw [hs] at this
+  cases this
+
+theorem specSteps_rejected_stays (env : Env) (body : List Step) (b : Body) (hb : b.accepted = false) :
+    (specSteps env body b).accepted = false := by
+  induction body generalizing b with
+  | nil => exact hb
+  | cons s rest ih =>
+    cases s with
+    | op o fault swallow =>
+      unfold specSteps
+      simp only
+      split
+      · exact ih _ hb
+      · split
+        · exact ih _ hb
+        · rfl
+    | fail tag => rfl
+    | addCommit tag => exact ih _ hb
+    | addPre tag fails => exact ih _ hb
+    | nestedBegin => exact ih _ hb
+    | nestedEnd => exact ih _ hb
+    | useSystemCtx => exact ih _ hb
+
+/-- a body in which the caller returns an error is not accepted -/
+theorem specSteps_caller_error (env : Env) (body : List Step) (tag : Nat) (hm : Step.fail tag ∈ body) (b : Body) :
+    (specSteps env body b).accepted = false := by
+  induction body generalizing b with
+  | nil => cases hm
+  | cons s rest ih =>
+    rcases List.mem_cons.mp hm with rfl | hr
+    · rfl
+    · cases s with
+      | op o fault swallow =>
+        unfold specSteps
+        simp only
+        split
+        · exact ih hr _
+        · split
+          · exact ih hr _
+          · rfl
+      | fail tag => rfl
+      | addCommit tag => exact ih hr _
+      | addPre tag fails => exact ih hr _
+      | nestedBegin => exact ih hr _
+      | nestedEnd => exact ih hr _
+      | useSystemCtx => exact ih hr _
+
+/-- pre-commit actions are never removed from the context by a body -/
+theorem specSteps_pre_mono (env : Env) (body : List Step) (b : Body) (x : Nat × Bool)
+    (hx : x ∈ b.ctx.preActions) : x ∈ (specSteps env body b).ctx.preActions := by
+  induction body generalizing b with
+  | nil => exact hx
+  | cons s rest ih =>
+    cases s with
+    | op o fault swallow =>
+      unfold specSteps
+      simp only
+      split
+      · exact ih _ hx
+      · split
+        · exact ih _ hx
+        · exact hx
+    | fail tag => exact hx
+    | addCommit tag => exact ih _ hx
+    | addPre tag fails => exact ih _ (by simp [hx])
+    | nestedBegin => exact ih _ hx
+    | nestedEnd => exact ih _ hx
+    | useSystemCtx => exact ih _ hx
+
+/-- **the caller's function returns an error** -> Db.Update returns an error -/
+theorem caller_error_surfaces (env : Env) (h : FromCode env) (db : Db) (ctx : Ctx) (body : List Step)
+    (hp : Propagating body) (tag : Nat) (hm : Step.fail tag ∈ body) :
+    (dbUpdate env db ctx body).res ≠ .ok := by
+  intro hok
+  have ha := (dbUpdate_agree env h.expected db ctx body hp).res.mp hok
+  rw [(specTxWith_ok env true db ctx body).1] at ha
+  have : (specBody env db ctx body).accepted = false := specSteps_caller_error env body tag hm _
+  simp [this] at ha
+
+/-- **a pre-commit action fails** (registered on the context before or during the body) -> error -/
+theorem pre_commit_error_surfaces (env : Env) (h : FromCode env) (db : Db) (ctx : Ctx) (body : List Step)
+    (hp : Propagating body) (tag : Nat) (hm : (tag, true) ∈ ctx.preActions) :
+    (dbUpdate env db ctx body).res ≠ .ok := by
+  intro hok
+  have ha := (dbUpdate_agree env h.expected db ctx body hp).res.mp hok
+  rw [(specTxWith_ok env true db ctx body).1] at ha
+  have hin : (tag, true) ∈ (specBody env db ctx body).ctx.preActions := specSteps_pre_mono env body _ _ hm
+  have : preOk (specBody env db ctx body).ctx = false := by
+    unfold preOk
+    cases hall : (specBody env db ctx body).ctx.preActions.all (fun p => !p.2) with
+    | false => rfl
+    | true =>
+      have := List.all_eq_true.mp hall _ hin
+      simp at this
+  simp [this] at ha
+
+/-- **a store operation is rejected** at any position of the body -> error: the operations before it
+    were accepted (so the body reaches it), it is rejected on the database they produced -/
+theorem rejected_operation_surfaces (env : Env) (h : FromCode env) (db : Db) (ctx : Ctx)
+    (pre post : List Step) (o : Op) (fault : Fault)
+    (hp : Propagating (pre ++ .op o fault false :: post))
+    (hrej : OpFails env (specBody env db ctx pre).db o) :
+    (dbUpdate env db ctx (pre ++ .op o fault false :: post)).res ≠ .ok := by
+  intro hok
+  have ha := (dbUpdate_agree env h.expected db ctx _ hp).res.mp hok
+  rw [(specTxWith_ok env true db ctx _).1] at ha
+  have : (specBody env db ctx (pre ++ .op o fault false :: post)).accepted = false := by
+    unfold specBody
+    have happ : ∀ (l1 l2 : List Step) (b : Body), specSteps env (l1 ++ l2) b =
+        if (specSteps env l1 b).accepted then specSteps env l2 (specSteps env l1 b) else specSteps env (l1 ++ l2) b := by
+      intro l1 l2 b
+      induction l1 generalizing b with
+      | nil => cases hb : b.accepted <;> simp [specSteps, hb]
+      | cons s rest ih =>
+        cases s with
+        | op o fault swallow =>
+          simp only [List.cons_append, specSteps]
+          split
+          · exact ih _
+          · split
+            · exact ih _
+            · simp
+        | fail tag => simp [specSteps]
+        | addCommit tag => simp only [List.cons_append, specSteps]; exact ih _
+        | addPre tag fails => simp only [List.cons_append, specSteps]; exact ih _
+        | nestedBegin => simp only [List.cons_append, specSteps]; exact ih _
+        | nestedEnd => simp only [List.cons_append, specSteps]; exact ih _
+        | useSystemCtx => simp only [List.cons_append, specSteps]; exact ih _
+    rw [happ]
+    split
+    · unfold specBody at hrej
+      simp only [specSteps, opFails_rejected env fault _ o hrej, Bool.false_eq_true, if_false]
+    · rename_i hna
+      have hfa : (specSteps env pre { accepted := true, db := db, flows := [], ctx := ctx, specified := true }).accepted = false := by
+        simpa using hna
+      -- the prefix already failed: the whole body fails
+      have : ∀ (l1 l2 : List Step) (b : Body), (specSteps env l1 b).accepted = false →
+          (specSteps env (l1 ++ l2) b).accepted = false := by
+        intro l1 l2 b
+        induction l1 generalizing b with
+        | nil => intro hb; exact specSteps_rejected_stays env l2 b hb
+        | cons s rest ih =>
+          cases s with
+          | op o fault swallow =>
+            simp only [List.cons_append, specSteps]
+            split
+            · exact ih _
+            · split
+              · exact ih _
+              · intro _; rfl
+          | fail tag => intro _; rfl
+          | addCommit tag => simp only [List.cons_append, specSteps]; exact ih _
+          | addPre tag fails => simp only [List.cons_append, specSteps]; exact ih _
+          | nestedBegin => simp only [List.cons_append, specSteps]; exact ih _
+          | nestedEnd => simp only [List.cons_append, specSteps]; exact ih _
+          | useSystemCtx => simp only [List.cons_append, specSteps]; exact ih _
+      exact this _ _ _ hfa
+  simp [this] at ha
+
+/-- **ghost form, any injected storage fault:** if anything at all was raised while a Db.Update
+    transaction ran (body that hands errors on), Db.Update returns an error. -/
+theorem tx_raised_surfaces (env : Env) (h : FromCode env) (db : Db) (ctx : Ctx) (body : List Step)
+    (hp : Propagating body) (hr : (dbUpdate env db ctx body).raised ≠ []) :
+    (dbUpdate env db ctx body).res ≠ .ok := by
+  intro hok
+  apply hr
+  unfold dbUpdate at hok ⊢
+  cases ha : (attempt env true db ctx body).res with
+  | err e => simp [ha, rollback] at hok
+  | ok =>
+    simp only [commit, List.nil_append]
+    unfold attempt at ha ⊢
+    have hg := (runSteps_ghost env h.expected body hp (beginTx db ctx)).2
+    cases hrs : (runSteps env body (beginTx db ctx)).2 with
+    | err e => simp [hrs] at ha
+    | ok =>
+      simp only [hrs] at ha ⊢
+      cases hpre : (runPre (runSteps env body (beginTx db ctx)).1.ctx.preActions).2 with
+      | some e => simp [hpre] at ha
+      | none =>
+        simp only
+        have := hg hrs
+        split <;> simpa [TxSt.enqueue, beginTx] using this
+
+/-- **C07, no false success of a transaction:** a transaction that reports success was accepted by
+    the spec and the database is the one the spec computes (every operation had its whole effect). -/
+theorem tx_no_false_success (env : Env) (h : FromCode env) (db : Db) (prevCtx : Ctx) (tx : TxSpec)
+    (hw : tx.wellBehaved) (hok : (runTx env db prevCtx tx).res = .ok) :
+    (specTx env db prevCtx tx).ok = true ∧ (runTx env db prevCtx tx).db = (specTx env db prevCtx tx).db := by
+  have ha := runTx_agree env h.expected db prevCtx tx hw
+  exact ⟨ha.res.mp hok, ha.db⟩
+
+/-- **all histories:** over any sequence of transactions (each handing errors on), the model of the
+    code agrees with the spec transaction by transaction: same outcome, same database, same context,
+    and what runs at commit is exactly the commit list of the accepted changes. -/
+theorem history_refines_spec (env : Env) (h : FromCode env) (txs : List TxSpec)
+    (hw : ∀ tx ∈ txs, tx.wellBehaved) (db : Db) (ctx : Ctx) :
+    CaseAgree env (runCase env txs db ctx) (specCase env txs db ctx) :=
+  runCase_agree env h.expected txs hw db ctx
+
+-- non-vacuity of the transaction hypotheses
+def sampleBody : List Step := [.addCommit 1, .op (.create .C "c1" ⟨"n", ["r"], none⟩ "k") (.load .P 1) false, .fail 3]
+example : TxSpec.wellBehaved { mode := .batch, reuseCtx := true, body := sampleBody } := by
+  intro s hs
+  simp [sampleBody] at hs
+  rcases hs with rfl | rfl | rfl <;> rfl
+
+/-- What the reverted fix 9b55bb4 looks like in the table: DeleteById returning nil when fireEvents
+    fails. -/
+def tableWithout9b55bb4 : CrudReturns := { expectedReturns with deleteFireEvents := .returnNil }
+
+/-- Under that table the error of a vetoing constraint is dropped — the property fails on this
+    concrete input (the veto is raised, the delete reports success). -/
+example :
+    (runOp { regsP := [], regsC := [.constraint true [(.deleted, "c1")]], txListeners := 0, t := tableWithout9b55bb4 }
+      .none (.delete .C "c1") (beginTx [("c1", { f := ⟨"n2", [], none⟩, child := some "k1" })] Ctx.empty)).2 = .ok ∧
+    (runOp { regsP := [], regsC := [.constraint true [(.deleted, "c1")]], txListeners := 0, t := tableWithout9b55bb4 }
+      .none (.delete .C "c1") (beginTx [("c1", { f := ⟨"n2", [], none⟩, child := some "k1" })] Ctx.empty)).1.raised
+        = [.veto .C 0] := by
+  decide
+
+end StorageModel.Properties.C07
